@@ -138,8 +138,6 @@ Proof.
   assert (2 ^ (Z.of_nat h + 1) <= 2 ^ 31) by (apply pow2_le; lia).
   rewrite i32_id by lia. lia.
 Qed.
-(*
-*)
 
 Lemma Height_full h : (h <= 30)%nat -> Height (2 ^ (Z.of_nat h + 1) - 1) = Z.of_nat h.
 Proof.
@@ -163,3 +161,90 @@ Qed.
 Lemma PathToIndex_full h q : (h <= 30)%nat -> (length q <= h)%nat ->
   PathToIndex (fullT h) (enc h q) = Some (full_rank h q).
 Proof. intros Hh Hl. rewrite PathToIndex_fullT by exact Hh. now rewrite fullTreeIndex_enc. Qed.
+
+(** * (a) the descent loop and the table = pure descent *)
+
+(** the machine state at remaining height c of a tree of height h, after the
+    path bits of value A have been fixed: [mask] and [p2] (= path word * 2) *)
+Definition maskAt (c : nat) : Z := c01 * 2 ^ Z.of_nat c.
+Definition p2At (h c : nat) (A : Z) : Z :=
+  (A * 2 ^ (Z.of_nat c + 1)) * 2 ^ 32 + (2 ^ Z.of_nat (h - c) - 1) * 2 ^ (Z.of_nat c + 1).
+
+Lemma maskAt_split c : maskAt c = 2 ^ Z.of_nat c * 2 ^ 32 + 2 ^ Z.of_nat c.
+Proof. unfold maskAt, c01. change 0x0100000001 with (2 ^ 32 + 1). lia. Qed.
+
+Lemma mask15 c : (c <= 30)%nat -> (Z.land (maskAt c) 15 =? 0) = (4 <=? c)%nat.
+Proof.
+  intros Hc.
+  assert (F : forallb (fun c => Bool.eqb (Z.land (maskAt c) 15 =? 0) (4 <=? c)%nat) (seq 0 31) = true)
+    by (vm_compute; reflexivity).
+  rewrite forallb_forall in F. apply eqb_prop, F, in_seq. lia.
+Qed.
+
+Lemma idxword_eq idx : 0 <= idx < 2 ^ 31 -> idxword idx = idx * 2 ^ 32 + (2 ^ 32 - 1).
+Proof.
+  intros H. unfold idxword. rewrite u64_id by lia. rewrite shl64_small by lia.
+  change 0xffffffff with (2 ^ 32 - 1). apply lor_hi_lo; lia.
+Qed.
+
+Lemma pow2_le_30 c : (c <= 30)%nat -> 0 < 2 ^ Z.of_nat c <= 2 ^ 30.
+Proof. intros. split; [apply pow2_pos; lia|apply pow2_le; lia]. Qed.
+
+Lemma mb_eq idx c : 0 <= idx < 2 ^ 31 -> (c <= 30)%nat ->
+  Z.land (idxword idx) (maskAt c)
+  = (if Z.testbit idx (Z.of_nat c) then 2 ^ Z.of_nat c else 0) * 2 ^ 32 + 2 ^ Z.of_nat c.
+Proof.
+  intros Hi Hc. pose proof (pow2_le_30 c Hc).
+  rewrite idxword_eq, maskAt_split by lia. rewrite land_halves by lia.
+  rewrite land_bit_testbit by lia. f_equal.
+  rewrite Z.land_comm. change (2 ^ 32 - 1) with (Z.ones 32). rewrite Z.land_ones by lia.
+  apply Z.mod_small. lia.
+Qed.
+
+(** one iteration of the loop = one step of the pure descent *)
+Lemma loop_step h c' A idx f : (h <= 30)%nat -> (3 <= c')%nat -> (S c' <= h)%nat ->
+  0 < idx < 2 ^ (Z.of_nat (S c') + 1) - 1 ->
+  let b := 2 ^ Z.of_nat (S c') <=? idx in
+  descent_loop (S f) (p2At h (S c') A) idx (maskAt (S c'))
+  = descent_loop f (p2At h c' (2 * A + Z.b2z b))
+      (if b then idx - 2 ^ Z.of_nat (S c') else idx - 1) (maskAt c').
+Proof.
+  intros Hh Hc Hch Hi b.
+  pose proof (pow2_le_30 (S c') ltac:(lia)) as HP.
+  assert (Hi31 : 0 <= idx < 2 ^ 31).
+  { rewrite pow2_succ in Hi by lia. lia. }
+  cbn [descent_loop]. rewrite mask15 by lia.
+  destruct (Nat.leb_spec 4 (S c')); [|lia]. destruct (Z.ltb_spec 0 idx); [|lia]. cbn [andb].
+  rewrite mb_eq by lia. rewrite testbit_top by lia. fold b.
+  set (bv := if b then 2 ^ Z.of_nat (S c') else 0).
+  assert (Hbv : 0 <= bv < 2 ^ (Z.of_nat (S c') + 1)).
+  { rewrite pow2_succ by lia. unfold bv. destruct b; lia. }
+  rewrite shr64_div by lia. rewrite div_hi_lo by lia.
+  rewrite (i32_id bv) by (unfold bv; destruct b; lia).
+  f_equal.
+  - (* p2 *)
+    unfold p2At.
+    replace (h - c')%nat with (S (h - S c')) by lia.
+    rewrite (pow2_S (h - S c')).
+    replace (Z.of_nat c' + 1) with (Z.of_nat (S c')) by lia.
+    set (Q := 2 ^ Z.of_nat (h - S c')).
+    set (P := 2 ^ Z.of_nat (S c')) in *.
+    set (k := Z.of_nat (S c') + 1) in *.
+    assert (HQ : 0 < Q) by (apply pow2_pos; lia).
+    assert (Hk : 2 ^ k = 2 * P) by (apply pow2_succ; lia).
+    assert (HQP : Q * P = 2 ^ Z.of_nat h).
+    { unfold Q, P. rewrite <- Z.pow_add_r by lia. f_equal. lia. }
+    pose proof (pow2_le_30 h Hh).
+    rewrite lor_halves by nia.
+    rewrite (lor_hi_lo A bv k) by lia.
+    rewrite (lor_hi_lo (Q - 1) P k) by lia.
+    rewrite Hk. unfold bv. destruct b; cbn [Z.b2z]; lia.
+  - (* index *)
+    unfold bv. destruct b eqn:Eb; unfold b in Eb.
+    + apply Z.leb_le in Eb. destruct (Z.eqb_spec (2 ^ Z.of_nat (S c')) 0); [lia|]. apply i32_id. lia.
+    + rewrite Z.eqb_refl. apply i32_id. lia.
+  - (* mask *)
+    unfold maskAt. rewrite shr64_div by lia. rewrite pow2_S.
+    replace (c01 * (2 * 2 ^ Z.of_nat c')) with (c01 * 2 ^ Z.of_nat c' * 2 ^ 1) by (change (2 ^ 1) with 2; lia).
+    apply Z.div_mul. lia.
+Qed.
